@@ -224,6 +224,11 @@ BigRequestOk(total, want, got, err, complete, panicked) ==
   /\ got <= total
   /\ IF want <= total THEN got >= want ELSE got = total /\ complete
 
+\* look-ahead of megabytes with a huge chunk size, an advance, then a much smaller chunk size, a refill and a further
+\* request: the window always showed exactly the next bytes of the stream (windowOk), the request was satisfied
+BigShrinkOk(want, got, windowOk, err, panicked) ==
+  /\ ~panicked /\ ~err /\ windowOk /\ got >= want
+
 \* measured heap of the same run without tracing (C05)
 HeapOk(peak, consumed, chunk, panicked) ==
   /\ ~panicked
